@@ -218,8 +218,12 @@ func checkC09(p *Prog, r *Report) {
 		r.Saw("func " + fnName(rt.Handler))
 		serves := fileServing(p, rt.Handler, map[*ssa.Function]bool{})
 		uncond := true
+		at := rt.Instr
+		if nil != rt.Anchor {
+			at = rt.Anchor /* a row of a literal table registered in a loop */
+		}
 		eachInstr(rt.In, func(i ssa.Instruction) {
-			if isReturn(i) && !instrDominates(rt.Instr, i) {
+			if isReturn(i) && !instrDominates(at, i) {
 				uncond = false
 			}
 		})
